@@ -91,6 +91,10 @@ func harnessFiles(repo, pkgKey, prop string) map[string]string {
 			m[filepath.Join(repo, pkgDirs[pkgKey], n)] = filepath.Join(dir, n)
 		}
 	}
+	if pkgKey != "serf" {
+		// exported helpers for building Serf values with unexported fields from other packages
+		m[filepath.Join(repo, pkgDirs["serf"], "zz_verif_export.go")] = filepath.Join(verifRoot, "harness", "serf_export", "zz_verif_export.go")
+	}
 	return m
 }
 
